@@ -84,7 +84,11 @@ var plans = map[string]Plan{
 	"C18": {
 		Stages: []Stage{
 			{Harness: "hconc", Config: "default", Quick: 400, Thorough: 20000, QuickSec: 65, ThoroughSec: 1500, MemGB: 10},
-			{Harness: "hconc", Config: "default", Race: true, Quick: 60, Thorough: 2500, QuickSec: 50, ThoroughSec: 1200},
+			{Harness: "hconc", Config: "default", Race: true, Quick: 96, Thorough: 2500, QuickSec: 60, ThoroughSec: 1200},
+			// the same sample decoded by 2..3 tasks at once through decode.Decode (no interpreter start-up):
+			// every small corpus sample gets its turn; race build, and plain build against the lone decode
+			{Harness: "htwins", Config: "default", Race: true, Quick: 8000, Thorough: 400000, QuickSec: 45, ThoroughSec: 900, MemGB: 6},
+			{Harness: "htwins", Config: "default", Quick: 8000, Thorough: 400000, QuickSec: 25, ThoroughSec: 600, MemGB: 6, HeapGB: 2},
 			// history dimension on inputs with cross-record state: a capture cut in two
 			{Harness: "hsplit", Config: "default", Quick: 250, Thorough: 20000, QuickSec: 35, ThoroughSec: 600, MemGB: 8},
 		},
